@@ -1,6 +1,6 @@
 (* Interp/Run.v — dispatcher: one case in, one observation out.
    case ::= (case ID FAMILY payload)   obs ::= (obs ID result) *)
-From Verif Require Import Base.Prelude Base.Str Interp.Sexp Interp.RunUnits Interp.RunSchema Interp.RunCodegen Interp.RunFunction.
+From Verif Require Import Base.Prelude Base.Str Interp.Sexp Interp.RunUnits Interp.RunUnitsF Interp.RunSchema Interp.RunCodegen Interp.RunFunction.
 From Verif Require Interp.RunStep Interp.RunFootprint.
 Open Scope string_scope.
 
@@ -8,7 +8,7 @@ Definition run_case (x : sexp) : sexp :=
   match x with
   | Ls [At "case"; id; At fam; payload] =>
       let r :=
-        if String.eqb fam "units" then run_units_case payload
+        if String.eqb fam "units" then run_unitsf_case payload
         else if String.eqb fam "schema" then run_schema_case payload
         else if String.eqb fam "codegen" then run_codegen_case payload
         else if String.eqb fam "function" then run_function_case payload
